@@ -185,7 +185,16 @@ func (e *Engine) verifyLemma(ct *Contract, res *FnResult, te *TypeEnv, S *Script
 			}
 		}
 	}()
+	S.LemmaSeq = ct.Seq
+	for _, ax := range e.CS.Axioms {
+		e.needAxioms(fc, ax.PkgPath)
+	}
 	e.needAxioms(fc, ct.PkgPath)
+	if iv := ct.Opts["induction"]; iv != "" {
+		// strong induction on a natural-number parameter: the statement is assumed for all smaller values
+		ih := e.lemmaFormula(fc, ct, iv, env.Vars[iv].T)
+		S.Assume(ih, "induction hypothesis on "+iv)
+	}
 	for _, cl := range ct.Requires {
 		S.Assume(fc.evalClause(env, cl), "requires "+cl.Label)
 	}
@@ -196,6 +205,77 @@ func (e *Engine) verifyLemma(ct *Contract, res *FnResult, te *TypeEnv, S *Script
 		ob := &Obligation{Name: fmt.Sprintf("%s#ensures[%s]", res.FullName, cl.Label), Func: res.FullName, Kind: "ensures", Label: cl.Label, Goal: t, Serves: ct.Serves, Clause: cl.Src, Known: cl.Known}
 		S.Oblige(ob)
 	}
+}
+
+// lemmaFormula: forall params :: requires ==> ensures, as an SMT term. With
+// indVar set, restricted to 0 <= indVar' < bound (the induction hypothesis).
+func (e *Engine) lemmaFormula(fc *FnCtx, ct *Contract, indVar string, bound Term) Term {
+	st := &State{PC: TTrue, Heap: map[string]Term{}}
+	env := &SpecEnv{FC: fc, Cur: st, Old: st, Named: map[string]*State{}, Vars: map[string]TVal{}, Macros: map[string]SExpr{}, PkgPath: ct.PkgPath}
+	n := 0
+	env.nbound = &n
+	for _, l := range ct.Lets {
+		env.Macros[l.Name] = l.Expr
+	}
+	var binders []string
+	var guards []Term
+	var t Term
+	func() {
+		defer func() {
+			if r := recover(); r != nil {
+				if se, ok := r.(specErr); ok {
+					panic(unsupported{"lemma " + ct.Key + ": " + se.msg})
+				}
+				panic(r)
+			}
+		}()
+		for _, p := range ct.Params {
+			pt, k := env.resolveType(p.Type)
+			name := p.Name + "!l"
+			srt := env.sortOfKind(pt, k)
+			binders = append(binders, fmt.Sprintf("(%s %s)", name, srt))
+			bv := Term{name, srt}
+			env.Vars[p.Name] = TVal{T: bv, Ty: pt, Kind: k}
+			if k == KGo {
+				if g := fc.wfBinder(bv, pt); g.S != "true" {
+					guards = append(guards, g)
+				}
+			}
+			if p.Name == indVar {
+				guards = append(guards, app(SBool, "<=", fc.TE.IntLit(0), bv), app(SBool, "<", bv, bound))
+			}
+		}
+		var req, ens []Term
+		for _, cl := range ct.Requires {
+			req = append(req, env.boolT(cl.Expr))
+		}
+		for _, cl := range ct.Ensures {
+			ens = append(ens, env.boolT(cl.Expr))
+		}
+		body := Implies(And(append(guards, req...)...), And(ens...))
+		pat := ""
+		if tr := ct.Opts["trigger"]; tr != "" {
+			var ps []string
+			for _, part := range splitTop(tr, ';') {
+				var ts []string
+				for _, one := range splitTop(part, ',') {
+					ex, err := parseSpecExpr(one)
+					if err != nil {
+						panic(unsupported{"lemma " + ct.Key + " trigger: " + err.Error()})
+					}
+					ts = append(ts, env.eval(ex).T.S)
+				}
+				ps = append(ps, ":pattern ("+strings.Join(ts, " ")+")")
+			}
+			pat = strings.Join(ps, " ")
+		}
+		if pat != "" {
+			t = Term{fmt.Sprintf("(forall (%s) (! %s %s))", strings.Join(binders, " "), body.S, pat), SBool}
+		} else {
+			t = Term{fmt.Sprintf("(forall (%s) %s)", strings.Join(binders, " "), body.S), SBool}
+		}
+	}()
+	return t
 }
 
 func (e *Engine) anyFnOf(pkgPath string) *ssa.Function {
